@@ -281,3 +281,24 @@ package avfs
 //@   requires vfs != nil && d != nil
 //@   ensures[C14] firstcall(walkDirFn)
 //@   loop 0 invariant true
+
+// ---- per-view state: setters modify the receiver's own cell only (C11) ------------------------
+
+//@ func (*CurDirFn).SetCurDir
+//@   ensures[C11] cdf.curDir == curDir && r0 == nil
+//@   modifies cdf.curDir
+//@ func (*CurDirFn).CurDir
+//@   ensures[C11] r0 == cdf.curDir
+//@   modifies nothing
+//@ func (*CurUserFn).SetUser
+//@   ensures[C11] vst.user == user && r0 == nil
+//@   modifies vst.user
+//@ func (*CurUserFn).User
+//@   ensures[C11] r0 == vst.user
+//@   modifies nothing
+//@ func (*UMaskFn).SetUMask
+//@   ensures[C11] umf.umask == mask && r0 == nil
+//@   modifies umf.umask
+//@ func (*UMaskFn).UMask
+//@   ensures[C11,C03] r0 == umf.umask
+//@   modifies nothing
